@@ -18,7 +18,7 @@ Next == /\ SpnOk(s) /\ Len(h) < 3 * MaxLen
            \/ \E x \in I3, n \in 1..3 : s.lv[x] = "live" /\ Step(2, x, n, Rename(s, x, Names[n]).st)
            \/ \E d \in 1..2 : Step(3, d, 0, DomainRename(s, Doms[d]))
            \/ \E x \in I3 : s.lv[x] = "live" /\ Step(4, x, 0, Delete(s, {x}))
-           \/ \E x \in I3 : s.lv[x] = "recycled" /\ Step(5, x, 0, Revive(s, x).st)
+           \/ \E x \in I3 : s.lv[x] = "recycled" /\ Step(5, x, 0, Revive(s, {x}).st)
            \/ \E x \in I3 : s.lv[x] = "live" /\ Step(6, x, 0, Touch(s, x))
 Spec == Init /\ [][Next]_<<s, h>>
 Pad(q) == q \o [i \in 1..(24 - Len(q)) |-> 0]
